@@ -31,6 +31,7 @@ import (
 // so the content of a block number never changes.
 
 const (
+	forkAt  = 3
 	host    = "node1"
 	nodeURL = "http://node1"
 	nBlocks = 6
@@ -44,6 +45,10 @@ var (
 
 	fullChain *simeth.Chain
 	prefixes  map[uint64]*simeth.Chain
+	// altPrefixes: a sibling branch that forks above block forkAt — same heights, other hashes for
+	// blocks forkAt+1..nBlocks ("same height, different hash" announcements). Blocks 1..forkAt,
+	// the only ones Get ever requests, are identical on both branches.
+	altPrefixes map[uint64]*simeth.Chain
 )
 
 func hx(b []byte) string { return "0x" + hex.EncodeToString(b) }
@@ -70,6 +75,14 @@ func buildModel() {
 	prefixes = map[uint64]*simeth.Chain{}
 	for k := uint64(1); k <= nBlocks; k++ {
 		prefixes[k] = fullChain.Truncate(k)
+	}
+	alt := fullChain.Reorg(forkAt, specs[forkAt:], 9)
+	altPrefixes = map[uint64]*simeth.Chain{}
+	for k := uint64(forkAt + 1); k <= nBlocks; k++ {
+		altPrefixes[k] = alt.Truncate(k)
+		if string(altPrefixes[k].Head().Hash) == string(prefixes[k].Head().Hash) || string(alt.Block(forkAt).Hash) != string(fullChain.Block(forkAt).Hash) {
+			panic("C08 model: sibling branch does not differ above the fork / differs below it")
+		}
 	}
 }
 
@@ -158,6 +171,7 @@ func filterSpecs() map[string]fspec {
 type op struct {
 	Get          bool
 	Head         uint64 // "H:<n>": environment operation — the node announces head n, the poller's ticker fires
+	Alt          bool   // "R:<n>": the same, but head n of the sibling branch (same height, other hash)
 	Filt         string
 	Start, Limit uint64
 	Floor        uint64
@@ -173,12 +187,12 @@ func parseOp(s string) (op, error) {
 			return op{}, fmt.Errorf("bad op %q", s)
 		}
 		return op{Get: true, Filt: p[1], Start: st, Limit: li}, nil
-	case len(p) == 2 && p[0] == "H":
+	case len(p) == 2 && (p[0] == "H" || p[0] == "R"):
 		hd, err := strconv.ParseUint(p[1], 10, 64)
-		if err != nil || hd < 1 || hd > nBlocks {
+		if err != nil || hd < 1 || hd > nBlocks || (p[0] == "R" && hd <= forkAt) {
 			return op{}, fmt.Errorf("bad op %q", s)
 		}
-		return op{Head: hd}, nil
+		return op{Head: hd, Alt: p[0] == "R"}, nil
 	case len(p) == 2 && p[0] == "L":
 		fl, err := strconv.ParseUint(p[1], 10, 64)
 		if err != nil {
@@ -192,6 +206,9 @@ func parseOp(s string) (op, error) {
 func (o op) String() string {
 	if o.Get {
 		return fmt.Sprintf("G:%s:%d:%d", o.Filt, o.Start, o.Limit)
+	}
+	if o.Head > 0 && o.Alt {
+		return fmt.Sprintf("R:%d", o.Head)
 	}
 	if o.Head > 0 {
 		return fmt.Sprintf("H:%d", o.Head)
